@@ -385,7 +385,7 @@ let gen_sources r ~tier oc =
 let names_of (l : (byte list * byte list) list) = List.map (fun (k, _) -> string_of_bytes k) l
 let shapes = [| "mis"; "msi"; "mss"; "ss"; "is"; "arr"; "fs"; "nest"; "st"; "pst"; "nilp"; "nili"; "tnil"; "ch"; "fn"; "big"; "minint"; "u64"; "nan";
                 "inf"; "ninf"; "f"; "i"; "z"; "neg"; "s"; "e"; "bad"; "t"; "n"; "any"; "m"; "bytes"; "mf"; "mia"; "mai"; "pp"; "tm"; "ntm"; "dur"; "emb";
-                "long"; "longany"; "lol"; "named"; "empty"; "emap"; "undefined_var" |]
+                "long"; "longany"; "lol"; "named"; "empty"; "emap"; "mix"; "pmix"; "undefined_var" |]
 let lits = [| "0"; "1"; "-1"; "2"; "3.5"; "'a'"; "''"; "null"; "true"; "[]"; "[1, 2]"; "{'a': 1}"; "{}"; "9223372036854775807"; "-9223372036854775807";
               "1000000000"; "'z-a'"; "'%s %d'"; "'Y-m-d'"; "','"; "[[1]]"; "'a\\'b'" |]
 let arg r = if rint r 3 = 0 then pick r shapes else pick r lits
@@ -434,7 +434,7 @@ let gen_render r ~tier oc =
   (* access, unary, ternary, loops, set, include over every shape *)
   Array.iter (fun v ->
     List.iter (fun tpl -> emit_render oc "access" (Str_compat.replace_all tpl "$" v))
-      [ "{{ $ }}"; "{{ $.a }}"; "{{ $.X }}"; "{{ $.Hello }}"; "{{ $.PtrM }}"; "{{ $.Args }}"; "{{ $.Args(1) }}"; "{{ $.Two }}"; "{{ $.nosuch.deeper }}"; "{{ $.P.A }}"; "{{ $.Q.A }}";
+      [ "{{ $ }}"; "{{ $.a }}"; "{{ $.X }}"; "{{ $.Hello }}"; "{{ $.PtrM }}"; "{{ $.Args }}"; "{{ $.Args(1) }}"; "{{ $.Two }}"; "{{ $.nosuch.deeper }}"; "{{ $.P.A }}"; "{{ $.Q.A }}"; "{{ $.Name }}"; "{{ $.Title }}"; "{{ $.Zap }}"; "{{ $.Add }}"; "{{ $.Add(1) }}"; "{{ $.With(1, 2) }}"; "{{ $.Name() }}";
         "{{ $.hidden }}"; "{{ $.y }}"; "{{ $[0] }}"; "{{ $[-1] }}"; "{{ $[99] }}"; "{{ $['a'] }}"; "{{ $[1.5] }}"; "{{ $[true] }}"; "{{ $[null] }}"; "{{ $[undefined_var] }}";
         "{{ $[nan] }}"; "{{ $[big] }}"; "{{ $[minint] }}"; "{{ $[[]] }}"; "{{ $[{}] }}"; "{{ $[ss] }}"; "{{ $[st] }}"; "{{ $[fn] }}"; "{{ $[ch] }}"; "{{ $[nilp] }}";
         "{{ -$ }}"; "{{ +$ }}"; "{{ not $ }}"; "{{ $ ? 1 : 2 }}"; "{{ $ ?: 'd' }}"; "{{ $ ?? 'd' }}"; "{% for q in $ %}{{ q }}{% endfor %}";
@@ -447,6 +447,16 @@ let gen_render r ~tier oc =
         "{{ $ is divisible by($) }}"; "{{ $ is sameas([]) }}"; "{{ [] in $ }}"; "{{ {} in $ }}"; "{{ $ in long }}"; "{{ $ in longany }}"; "{{ $ not in lol }}";
         "{{ range($, 3) }}"; "{{ range(0, 3, $) }}"; "{{ random($) }}"; "{{ random($, $) }}"; "{{ cycle($, 1) }}"; "{{ cycle([1, 2], $) }}"; "{{ max($) }}"; "{{ min($, $) }}";
         "{{ attribute($, 'a') }}"; "{{ attribute(st, $) }}"; "{{ constant($) }}"; "{{ date($) is defined }}"; "{{ dump($) }}"; "{{ block($) }}"; "{{ source($) is defined }}" ]) shapes;
+  (* sanity: reads of fields and zero-argument methods that exist on the standard context; the expected output
+     follows from the Go declarations in harness/c05.go alone. An error here is the engine failing on a
+     supported shape (a panic inside reflect caught by the engine's own recover shows up this way) *)
+  List.iter (fun (tpl, out) -> emit oc (Ob [ "stream", JS "render"; "tag", JS "sanity"; "tpl", JS (hex tpl); "out", JS (hex out) ]))
+    [ "{{ mix.Name }}", "mixed v"; "{{ pmix.Name }}", "mixed p"; "{{ mix.Title }}", "title"; "{{ pmix.Title }}", "title";
+      "{{ pmix.Zap }}", "zap"; "{{ mix.Zap }}", "zap"; "{{ st.Hello }}", "hello n"; "{{ pst.Hello }}", "hello n"; "{{ pst.PtrM }}", "ptr";
+      "{{ st.X }}", "7"; "{{ pst.X }}", "7"; "{{ st.Name }}", "n"; "{{ pst.Name }}", "n"; "{{ pst.P.A }}", "1"; "{{ st.M.k }}", "1"; "{{ st.L[0] }}", "l";
+      "{% for k in [pmix, mix] %}{{ k.Name }};{% endfor %}", "mixed p;mixed v;"; "{{ pmix.Name ~ '/' ~ pmix.Title }}", "mixed p/title";
+      "{% set q = pmix %}{{ q.Name }}", "mixed p"; "{{ [pmix][0].Title }}", "title"; "{{ pmix.Name|upper }}", "MIXED P";
+      "{% if pmix.Title %}y{% endif %}", "y"; "{{ mis[1] }}{{ msi.a }}{{ ss[0] }}{{ arr[2] }}", "a1a3" ];
   List.iter (fun tpl -> emit_render oc "special" tpl)
     [ "{{ range(0, 9223372036854775807)|length }}"; "{{ range(1, 1000000000)|length }}"; "{{ range(9223372036854775807, 9223372036854775807)|length }}";
       "{{ range(0, 9223372036854775807, 5000000000000000000)|length }}"; "{{ range(1, 3, 0) }}"; "{{ range(3, 1, 1)|length }}"; "{{ range(1, 3, -1)|length }}";
@@ -462,6 +472,17 @@ let gen_render r ~tier oc =
       "{% extends 'nosuch' %}"; "{% extends 'inc' %}{% block zz %}{{ parent() }}{% endblock %}"; "{% set s = 'xxxxxxxxxx' %}{% for i in range(1, 12) %}{% set s = s ~ s %}{% endfor %}{{ s|length }}";
       "{{ tm|date('Y-m-d') }}{{ ntm|date('Y') }}{{ dur }}{{ ntm }}"; "{{ 'x' ~ ntm }}"; "{{ emb.Hello }}{{ emb.X }}{{ emb.V }}"; "{% for k, v in mf %}{{ k }}{% endfor %}{{ mf|first }}";
       "{{ merge(mf, mf)|length }}"; "{{ mia[[]] }}{{ mia[{}] }}{{ mai[is] }}"; "{{ arr|reverse|join }}{{ arr|sort|join }}{{ arr|slice(0)|join }}"; "{{ msi|merge({'a': 'b'})|length }}" ]
+
+(* values that contain themselves (mirrored in harness/c05.go c05CyclicCtx): thorough tier only *)
+let gen_cyclic oc =
+  let cyc = [| "cycm"; "cycs"; "cycn"; "cycp" |] in
+  Array.iter (fun v ->
+    List.iter (fun tpl -> emit oc (Ob [ "stream", JS "render"; "tag", JS "cyclic"; "tpl", JS (hex (Str_compat.replace_all tpl "$" v)) ]))
+      [ "{{ $ }}"; "{{ dump($) }}"; "{{ $ == $ }}"; "{{ $ in [$] }}"; "{{ [$, $]|sort|length }}"; "{{ [$]|join(',') }}"; "{{ $|json_encode }}";
+        "{{ $|length }}"; "{% for q in $ %}.{% endfor %}"; "{{ $.Next.Next.Name }}"; "{{ $.self.self.a }}"; "{{ $[1][1][0] }}"; "{{ $|keys|join }}";
+        "{{ $|spaceless }}"; "{{ $|upper }}"; "{{ $|first }}"; "{{ 'x' ~ $ }}"; "{{ $|merge($)|length }}"; "{{ $ is same as($) }}"; "{{ $|reverse|length }}";
+        "{{ $|default('d') }}"; "{{ $|slice(0, 1)|length }}"; "{{ $|escape }}"; "{{ $|format($) }}"; "{{ $|sort|length }}"; "{{ $|column('a')|length }}";
+        "{{ max($, $) }}"; "{{ $ is iterable }}"; "{{ $ is empty }}"; "{% set w = $ %}{{ w }}"; "{% include 'inc' with $ %}"; "{{ $ ?: 'd' }}"; "{{ $|batch(1)|length }}" ]) cyc
 
 (* ------------------------------------------------------------------ compiled data *)
 let le32 (n : int) = String.init 4 (fun i -> Char.chr ((n lsr (8 * i)) land 255))
@@ -500,4 +521,5 @@ let run ~seed ~tier oc =
   gen_tokens r ~tier oc;
   gen_sources r ~tier oc;
   gen_render r ~tier oc;
+  if tier = "thorough" then gen_cyclic oc;
   gen_compiled r ~tier oc
